@@ -20,6 +20,8 @@ CLAIMED.update({
    text='For every generated @tile loop (tile sizes literal and run-time, steps, directions, comparisons, the four attribute forms, check=true/false, nested 2-D tiling) CBMC decides that the code emitted by the real translator visits exactly the iterator values of the untiled loop, each once, for all run-time bounds/steps/tile sizes in the stated ranges (check=false: whenever the trip count is a multiple of the tile size).'),
  'C19': dict(level='translation_validation', engine=E2, technique=E2TECH, note=E2NOTE, design='5/C19',
    text='For @dim arities 1-4, every @dimOrder permutation and index/dimension arguments from every C operator class, CBMC decides that the subscript emitted by the real translator equals the documented mixed-radix formula with every argument evaluated as a complete expression, stays inside [0, prod D) and is injective on in-range index tuples, for all run-time index and dimension values in the stated ranges.'),
+ 'C15': dict(level='translation_validation', engine=E2, technique=E2TECH, note=E2NOTE + ' For C15 CBMC\'s undefined-behaviour checks are off (both texts get the same bit-vector semantics) and the value ranges keep divisors non-zero; validity of the printed text as C and the parse-print fixpoint are concrete side checks.', design='5/C15',
+   text='About a thousand C expressions and statements (every ordered pair of the 18 binary operators ungrouped and in both groupings; unary, dereference, subscript, ternary, comma, cast and literal forms incl. escaped quotes; assignments and increments; declarations; if/else chains with dangling else; loops; switch) are parsed and printed by the real occa printer; CBMC decides that original and printed text leave identical values in every output and variable for ALL values of the variables in the stated ranges. The printed text must compile wherever the original does and must print identically when parsed again.'),
 })
 NA = {}
 def load_na():
